@@ -18,8 +18,9 @@ struct NearEq { float eps = 0.5f; bool operator()(const float &a, const float &b
 // an equality coarser than one increment step: integers in the same bucket of four compare equal
 struct BucketEq { bool operator()(const int &a, const int &b) const { auto fl = [](int v) { return v >= 0 ? v / 4 : -((-v + 3) / 4); }; return fl(a) == fl(b); } };
 
-enum OpKind { ASSIGN, ADD, SUB, MUL, DIV, PREINC, POSTINC, PREDEC, POSTDEC, APPLY_ID, APPLY_SET, APPLY_ADD, SUBSCRIBE, UNSUBSCRIBE, NKINDS };
-const char *kname[] = {"assign", "add", "sub", "mul", "div", "preinc", "postinc", "predec", "postdec", "applyid", "applyset", "applyadd", "subscribe", "unsubscribe"};
+// ASSIGNW: assignment from a value of ANOTHER type that converts to T (a double to an Observable<int>, a string literal to an Observable<std::string>): "changes the held value" is judged after the conversion
+enum OpKind { ASSIGN, ADD, SUB, MUL, DIV, PREINC, POSTINC, PREDEC, POSTDEC, APPLY_ID, APPLY_SET, APPLY_ADD, SUBSCRIBE, UNSUBSCRIBE, ASSIGNW, NKINDS };
+const char *kname[] = {"assign", "add", "sub", "mul", "div", "preinc", "postinc", "predec", "postdec", "applyid", "applyset", "applyadd", "subscribe", "unsubscribe", "wassign"};
 struct Op { int kind, arg; };     // arg = index into the domain's value list, or subscriber slot
 std::string op_str(const Op &o) { return std::string(kname[o.kind]) + std::to_string(o.arg); }
 bool parse_ops(const std::string &text, std::vector<Op> &h) {
@@ -41,6 +42,7 @@ struct IntDom {
     using T = int; using Eq = std::equal_to<int>; static constexpr const char *name = "int"; static constexpr bool arithmetic = true, default_eq = true;
     static std::vector<T> values() { return {-2, -1, 0, 1, 2}; }
     static std::vector<T> initials() { return {0, 2, -1}; }
+    static std::vector<double> wide() { return {2.5, -1.5, 2.0, 0.9, -0.4}; }
     static Eq eq() { return {}; }
     static bool in_bounds(const T &v) { return v >= -1000 && v <= 1000; }
     static bool can_div(const T &v) { return v != 0; }
@@ -49,6 +51,7 @@ struct FloatDom {
     using T = float; using Eq = NearEq; static constexpr const char *name = "float"; static constexpr bool arithmetic = true, default_eq = false;
     static std::vector<T> values() { return {0.25f, 1.0f, -1.0f, 0.5f, 2.0f}; }
     static std::vector<T> initials() { return {0.0f, 1.0f}; }
+    static std::vector<double> wide() { return {0.25, 1.0000000001, 2.0}; }
     static Eq eq() { return NearEq{0.5f}; }
     static bool in_bounds(const T &v) { return std::fabs(v) <= 64.0f && std::fabs(v * 64.0f) == std::floor(std::fabs(v * 64.0f)); }   // keeps float arithmetic exact
     static bool can_div(const T &v) { return v != 0.0f; }
@@ -58,6 +61,7 @@ struct WideFloatDom {
     using T = float; using Eq = NearEq; static constexpr const char *name = "widefloat"; static constexpr bool arithmetic = true, default_eq = false;
     static std::vector<T> values() { return {0.25f, 1.0f, -1.0f, 2.0f, 4.0f}; }
     static std::vector<T> initials() { return {0.0f, 1.0f}; }
+    static std::vector<double> wide() { return {0.25, 4.0}; }
     static Eq eq() { return NearEq{1.5f}; }
     static bool in_bounds(const T &v) { return FloatDom::in_bounds(v); }
     static bool can_div(const T &v) { return v != 0.0f; }
@@ -66,6 +70,7 @@ struct BucketDom {
     using T = int; using Eq = BucketEq; static constexpr const char *name = "bucketint"; static constexpr bool arithmetic = true, default_eq = false;
     static std::vector<T> values() { return {-2, -1, 0, 1, 2, 5}; }
     static std::vector<T> initials() { return {0, 3, -1}; }
+    static std::vector<double> wide() { return {2.5, 5.0}; }
     static Eq eq() { return {}; }
     static bool in_bounds(const T &v) { return v >= -1000 && v <= 1000; }
     static bool can_div(const T &v) { return v != 0; }
@@ -75,6 +80,7 @@ struct BigFloatDom {
     using T = float; using Eq = std::equal_to<float>; static constexpr const char *name = "bigfloat"; static constexpr bool arithmetic = true, default_eq = true;
     static std::vector<T> values() { return {16777216.0f, 1.0f, -16777216.0f, 2.0f}; }
     static std::vector<T> initials() { return {16777216.0f, -16777216.0f, 16777215.0f}; }
+    static std::vector<double> wide() { return {16777217.0, 16777216.0, 1.0000000001, -16777217.0}; }      // doubles that round to a float already in play
     static Eq eq() { return {}; }
     static bool in_bounds(const T &v) { return std::fabs(v) <= 134217728.0f && v == std::floor(v); }
     static bool can_div(const T &v) { return v != 0.0f; }
@@ -84,6 +90,7 @@ struct StrDom {
     using T = std::string; using Eq = std::equal_to<std::string>; static constexpr const char *name = "string"; static constexpr bool arithmetic = false, default_eq = true;
     static std::vector<T> values() { return {"", "a", "ab", LONGSTR}; }
     static std::vector<T> initials() { return {"", "a"}; }
+    static std::vector<const char *> wide() { return {"", "a", "ab"}; }
     static Eq eq() { return {}; }
     static bool in_bounds(const T &v) { return v.size() <= 90; }
     static bool can_div(const T &) { return false; }
@@ -91,7 +98,8 @@ struct StrDom {
 
 template<typename D> struct Sys {
     using T = typename D::T;
-    using Obs = Observable<T, typename D::Eq>;
+    // domains with the default equality instantiate Observable<T> as a user would (the default comparator is part of what is checked)
+    using Obs = std::conditional_t<D::default_eq, Observable<T>, Observable<T, typename D::Eq>>;
     struct Note { int sub; T v; };
     std::vector<Note> log;
     // model
@@ -104,6 +112,7 @@ template<typename D> struct Sys {
         auto vals = D::values();
         switch (o.kind) {
         case ASSIGN: case APPLY_SET: return o.arg < (int)vals.size();
+        case ASSIGNW: return o.arg < (int)D::wide().size();
         case ADD: return o.arg < (int)vals.size();
         case SUB: case MUL: return D::arithmetic && o.arg < (int)vals.size();
         case DIV: return D::arithmetic && o.arg < (int)vals.size() && D::can_div(vals[o.arg]);
@@ -135,6 +144,8 @@ template<typename D> struct Sys {
         auto changed = [&](const T &nv) { return !eq(old, nv); };
         switch (o.kind) {
         case ASSIGN: { T v = vals[o.arg]; Obs &r = (x = v); bool ch = changed(v); if (ch) mval = v; if (check) { expect(ch, mval, "operator="); if (&r != &x) bad("model:return", "operator= did not return *this"); } break; }
+        case ASSIGNW: { auto w = D::wide()[o.arg]; T v = static_cast<T>(w); Obs &r = (x = w); bool ch = changed(v); if (ch) mval = v;
+                        if (check) { expect(ch, mval, "operator= from a value of another type"); if (&r != &x) bad("model:return", "operator= did not return *this"); } break; }
         case ADD: { T v = vals[o.arg]; T nv = old; nv += v; if (!D::in_bounds(nv)) { abandoned = true; return; } x += v; mval = nv; if (check) expect(changed(nv), nv, "operator+="); break; }
         case SUB: if constexpr (D::arithmetic) { T v = vals[o.arg]; T nv = old; nv -= v; if (!D::in_bounds(nv)) { abandoned = true; return; } x -= v; mval = nv; if (check) expect(changed(nv), nv, "operator-="); } break;
         case MUL: if constexpr (D::arithmetic) { T v = vals[o.arg]; T nv = old; nv *= v; if (!D::in_bounds(nv)) { abandoned = true; return; } x *= v; mval = nv; if (check) expect(changed(nv), nv, "operator*="); } break;
@@ -162,7 +173,8 @@ template<typename D> struct Sys {
     // returns the key of the reached state, "" if the history leaves the bounds
     std::string step(int init, const std::vector<Op> &h, const Op *o, bool &okp) {
         T iv = D::initials()[init];
-        Obs x(iv, D::eq());
+        auto make = [&] { if constexpr (D::default_eq) return Obs(iv); else return Obs(iv, D::eq()); };
+        Obs x = make();
         typename Obs::Subject_t::Subscription_t subs[2];
         mval = iv; active[0] = active[1] = false; order[0] = order[1] = 0; order_counter = 0; abandoned = false; held[0] = held[1] = iv;
         for (auto &p : h) apply(x, subs, p, false);
@@ -181,6 +193,7 @@ template<typename D> void bfs(int maxdepth) {
     int nv = (int)D::values().size();
     for (int v = 0; v < nv; v++) for (int k : {ASSIGN, ADD, SUB, MUL, DIV, APPLY_SET}) alpha.push_back(Op{k, v});
     for (int k : {PREINC, POSTINC, PREDEC, POSTDEC, APPLY_ID, APPLY_ADD}) alpha.push_back(Op{k, 0});
+    for (int v = 0; v < (int)D::wide().size(); v++) alpha.push_back(Op{ASSIGNW, v});
     for (int i = 0; i < 2; i++) { alpha.push_back(Op{SUBSCRIBE, i}); alpha.push_back(Op{UNSUBSCRIBE, i}); }
     Sys<D> sys;
     for (int init = 0; init < (int)D::initials().size(); init++) {
@@ -210,12 +223,14 @@ template<typename D> void bfs(int maxdepth) {
 // every recorder that was notified holds value().  How many notifications a recorder gets when rounds nest is not constrained.
 template<typename D> struct ReSys {
     using T = typename D::T;
-    using Obs = Observable<T, typename D::Eq>;
+    // domains with the default equality instantiate Observable<T> as a user would (the default comparator is part of what is checked)
+    using Obs = std::conditional_t<D::default_eq, Observable<T>, Observable<T, typename D::Eq>>;
     // subscriber kinds in subscription order: 'r' recorder, 's' setter (assigns K from inside its callback)
     static void run(const std::string &order, int kidx, int init, const std::vector<Op> &ops, const std::string &hist) {
         auto vals = D::values();
         T K = vals[kidx];
-        Obs x(D::initials()[init], D::eq());
+        auto make = [&] { if constexpr (D::default_eq) return Obs(D::initials()[init]); else return Obs(D::initials()[init], D::eq()); };
+        Obs x = make();
         struct Rec { bool got = false; T last{}; };
         std::vector<Rec> recs(order.size());
         std::vector<typename Obs::Subject_t::Subscription_t> subs(order.size());
@@ -281,7 +296,7 @@ void explore() {
     bfs<WideFloatDom>(depth - 1); bfs<BucketDom>(depth - 1); bfs<BigFloatDom>(depth - 1);
     reentrant<IntDom>(thorough() ? 4 : 3); reentrant<StrDom>(thorough() ? 4 : 3);
     shm->validated = shm->transitions;
-    sx::detail(fmt("breadth-first search over histories of =, +=, -=, *=, /=, ++x, x++, --x, x--, apply(identity/set/add), subscribe, unsubscribe (2 subscriber slots) from several initial values for Observable<int>, "
+    sx::detail(fmt("breadth-first search over histories of =, = from a value of another type (double for the numeric Observables, a string literal for the string one), +=, -=, *=, /=, ++x, x++, --x, x--, apply(identity/set/add), subscribe, unsubscribe (2 subscriber slots) from several initial values for Observable<int>, "
                    "Observable<float, NearEq(0.5)>, Observable<std::string>, and (one level shallower) Observable<float, NearEq(1.5)> and Observable<int, same-bucket-of-4> whose equality is coarser than one ++/-- step and Observable<float> around 2^24 where +-1 is not representable; states are merged on (stored value, subscriber set and order, values last seen by the subscribers); every state reachable within depth %d is expanded "
                    "(value magnitude bounded so that int/float arithmetic stays exact); plus re-entrant histories: subscriber orders {s, sr, rs, rsr, srr, rrs, ss, srs} (r = recorder, s = subscriber that assigns a constant K to the Observable from inside its callback) x every K x every sequence of <= %d top-level operations for int and string: every notification carries the then-current value() and every notified recorder holds value() afterwards", depth, thorough() ? 4 : 3));
 }
